@@ -881,6 +881,12 @@ fn run_mode(_tier: &str) -> Vec<Grid> {
         inplace_case::<Pt>(&mut ip, "Pt(struct)", inp, &old_pt);
         inplace_case::<(u8, String)>(&mut ip, "(u8,String)", inp, &(5, "old".to_string()));
         inplace_case::<Huge>(&mut ip, "Huge(8 KiB)", inp, &Huge { tag: 9, pad: [9; 8192] });
+        inplace_case::<()>(&mut ip, "()", inp, &());
+        inplace_case::<Zs>(&mut ip, "Zs(unit struct)", inp, &Zs);
+    }
+    for n in [9usize, 8] {
+        let full: Vec<V> = (0..9u64).map(V::U).collect();
+        inplace_case::<[u64; 9]>(&mut ip, "[u64;9]", &V::Seq(full[..n].to_vec()), &[0xEEEE_EEEE_EEEE_EEEE; 9]);
     }
     vec![g, d, ip, panic_grid()]
 }
